@@ -387,4 +387,27 @@ void rcu_list<T, M, Alloc>::emplace_back"""}]},
     {"name": "tw-move-keeps-duty", "props": ["C19"], "edits": [{"file": "gmlc/concurrency/TripWire.hpp",
         "old": "    TripWireTrigger(TripWireTrigger&& twt) = default;",
         "new": "    TripWireTrigger(TripWireTrigger&& twt): lineTrigger(twt.lineTrigger) {}"}]},
+
+    # ---------------------------------------------------------------- deferred
+    {"name": "def-flag-before-enqueue", "props": ["C06"], "edits": [{"file": "gmlc/libguarded/deferred_guarded.hpp",
+        "old": "        m_pendingList.lock()->emplace_back(std::move(vtask));\n        m_pendingWrites.store(true);",
+        "new": "        m_pendingWrites.store(true);\n        m_pendingList.lock()->emplace_back(std::move(vtask));"}]},
+    {"name": "def-drain-no-lock", "props": ["C06", "C02"], "edits": [{"file": "gmlc/libguarded/deferred_guarded.hpp",
+        "old": "        std::unique_lock<M> lock(m_mutex, std::try_to_lock);\n\n        if (lock.owns_lock()) {\n            do_pending_writes_internal();\n        }",
+        "new": "        do_pending_writes_internal();"}]},
+    {"name": "def-flag-cleared-after-swap", "props": ["C06"], "edits": [{"file": "gmlc/libguarded/deferred_guarded.hpp",
+        "old": "        m_pendingWrites.store(false);\n        swap(localPending, *(m_pendingList.lock()));",
+        "new": "        swap(localPending, *(m_pendingList.lock()));\n        m_pendingWrites.store(false);"}]},
+    {"name": "def-run-reverse", "props": ["C06"], "edits": [{"file": "gmlc/libguarded/deferred_guarded.hpp",
+        "old": "        for (auto& f : localPending) {\n            f->run_task(m_obj);\n        }",
+        "new": "        for (auto f = localPending.rbegin(); f != localPending.rend(); ++f) {\n            (*f)->run_task(m_obj);\n        }"}]},
+    {"name": "def-detach-runs-unlocked", "props": ["C06", "C02"], "edits": [{"file": "gmlc/libguarded/deferred_guarded.hpp",
+        "old": "    if (lock.owns_lock()) {\n        do_pending_writes_internal();\n        func(m_obj);\n    } else {",
+        "new": "    if (lock.owns_lock() || !m_pendingWrites.load()) {\n        if (lock.owns_lock()) do_pending_writes_internal();\n        func(m_obj);\n    } else {"}]},
+    {"name": "def-async-direct-skips-drain", "props": ["C06"], "edits": [{"file": "gmlc/libguarded/deferred_guarded.hpp",
+        "old": "        do_pending_writes_internal();\n        retval = call_returning_future<return_t>(func, m_obj);",
+        "new": "        retval = call_returning_future<return_t>(func, m_obj);"}]},
+    {"name": "def-load-no-lock", "props": ["C15"], "edits": [{"file": "gmlc/libguarded/deferred_guarded.hpp",
+        "old": "        auto handle = lock_shared();\n        T newObj(*handle);\n        return newObj;\n    }\n\n  private:\n    void do_pending_writes() const;",
+        "new": "        T newObj(m_obj);\n        return newObj;\n    }\n\n  private:\n    void do_pending_writes() const;"}]},
 ]
